@@ -170,8 +170,30 @@ func genL1(t *rapid.T) Case {
 	return c
 }
 
+// genRAOrder draws the scenario behind "hosts that are currently backing off
+// after the others" for a server-requested delay: a mirror answers the first
+// read with 429 + Retry-After: 2 (another host serves it), then the read is
+// repeated at once. A correct client asks the other hosts first (and is done
+// in microseconds); only a client that gets the order wrong sleeps.
+func genRAOrder(t *rapid.T) Case {
+	c := Case{Layer: "L1", Limit: rapid.IntRange(2, 5).Draw(t, "limit"), DelayInitMs: 2, DelayMaxMs: 4, BlobLen: 16}
+	p := rapid.IntRange(0, 2).Draw(t, "prio")
+	c.Up = HostSpec{Prio: p, Has: "has"}
+	c.Mirrors = []HostSpec{{Prio: p, Has: "has", Word: []Letter{{K: "st", S: 429, RA: "2"}}}}
+	if rapid.Bool().Draw(t, "second") {
+		c.Mirrors = append(c.Mirrors, HostSpec{Prio: p, Has: "lacks"})
+	}
+	m := rapid.SampledFrom([]string{"GET", "HEAD"}).Draw(t, "method")
+	tg := rapid.SampledFrom([]string{"blob", "manifest"}).Draw(t, "target")
+	c.Reqs = []L1Req{{Method: m, Target: tg}, {Method: m, Target: tg}}
+	return c
+}
+
 func gen(t *rapid.T) Case {
-	if rapid.IntRange(0, 99).Draw(t, "layer") < 45 {
+	switch k := rapid.IntRange(0, 99).Draw(t, "layer"); {
+	case k < 2:
+		return genRAOrder(t)
+	case k < 45:
 		return genL1(t)
 	}
 	return genL2(t)
@@ -378,6 +400,11 @@ func genL2(t *rapid.T) Case {
 			p.Chunk = rapid.SampledFrom([]int{8, 32}).Draw(t, "chunk")
 			p.MaxPut = rapid.SampledFrom([]int{0, 4, 40}).Draw(t, "maxput")
 		}
+	}
+	// servers that answer a whole request class with 5xx for ever (upload must fail, not loop)
+	if c.Op == "blob-put-chunked" && rapid.IntRange(0, 5).Draw(t, "cf-forever") == 0 {
+		c.ClassFaults = append(c.ClassFaults, ClassFault{Class: rapid.SampledFrom([]string{"upload-patch", "upload-patch", "upload-put", "upload-get"}).Draw(t, "cf-fclass"),
+			Nth: rapid.IntRange(0, 2).Draw(t, "cf-fnth"), Times: -1, L: Letter{K: "st", S: rapid.SampledFrom([]int{500, 502, 504}).Draw(t, "cf-fstatus")}})
 	}
 	// faults aimed at the request classes of the operation (upstream)
 	ncf := rapid.SampledFrom([]int{0, 0, 1, 1, 2}).Draw(t, "ncf")
